@@ -104,7 +104,7 @@ PROPS = {
         ],
     },
     "C05": {
-        "units": ["cer", "clt", "sto"], "kani_complete": [], "kani_bounded_quick": [], "kani_bounded_thorough": [],
+        "units": ["cer", "clt", "sto", "lck"], "kani_complete": [], "kani_bounded_quick": [], "kani_bounded_thorough": [],
         "design_ref": "DESIGN.md section 5 / C05",
         "not_covered": [
             "the shipped stores Option<Passkey> and MemoryStore ARE decided (unit sto, over models of find_map / filter_map / HashMap "
@@ -113,12 +113,13 @@ PROPS = {
         ],
     },
     "C07": {
-        "units": ["cer"], "kani_complete": [], "kani_bounded_quick": [], "kani_bounded_thorough": [],
+        "units": ["cer", "lck"], "kani_complete": [], "kani_bounded_quick": [], "kani_bounded_thorough": [],
         "design_ref": "DESIGN.md section 5 / C07",
         "not_covered": [
             "cancellation at suspension points: rule R1 reads async code sequentially; only the structural "
             "conditions (one store_mut call, no await after it) are checked on the text",
-            "atomicity inside a store's own save / update; interior mutability behind &self (lock wrappers)",
+            "atomicity inside a store's own save / update; the lock wrappers shipped with the library forward save / update (result and "
+            "effect) to the wrapped store: unit lck, sequential reading (rule R38) -- interleavings with other holders of the lock are C19",
         ],
     },
     "C08": {
@@ -165,7 +166,7 @@ PROPS = {
         ],
     },
     "C11": {
-        "units": ["cer", "cli", "clt"], "kani_complete": [], "kani_bounded_quick": [], "kani_bounded_thorough": [],
+        "units": ["cer", "cli", "clt", "lck"], "kani_complete": [], "kani_bounded_quick": [], "kani_bounded_thorough": [],
         "design_ref": "DESIGN.md section 5 / C11",
         "not_covered": [
             "the dataflow inside Client::register that passes the same rk to the authenticator and to credProps is decided by unit clt (map_rk itself and the credProps output: unit cli)",
